@@ -294,6 +294,27 @@ func (c07) Run(t *tape.Tape, tier Tier) *Result {
 		if got := errors.HandledInDomainWithMessage(h, errors.NamedDomain("d"), "").Error(); got != "" {
 			res.add(Violation{Prop: "C07", Oracle: "withmessage-replaces-text", Culprit: "errors.HandledInDomainWithMessage(empty)", Expected: `""`, Observed: fmt.Sprintf("%q", got)})
 		}
+		// ... and the hidden error stays visible in %+v then, too
+		for _, c := range []struct {
+			name string
+			e    error
+		}{
+			{"errors.HandledWithMessage(empty)", errors.HandledWithMessage(h, "")},
+			{"errors.HandledInDomainWithMessage(empty)", errors.HandledInDomainWithMessage(h, errors.NamedDomain("d"), "")},
+			{"errors.Wrap(HandledWithMessage(empty))", errors.Wrap(errors.HandledWithMessage(h, ""), "outer")},
+		} {
+			for _, verbose := range []string{obs.Fmt("%+v", c.e), obs.Red("%+v", c.e)} {
+				if obs.IsPanic(verbose) {
+					continue
+				}
+				for _, tok := range tokenRE.FindAllString(h.Error(), -1) {
+					if !strings.Contains(verbose, tok) {
+						res.add(Violation{Prop: "C07", Oracle: "hidden-visible-in-verbose", Culprit: c.name, Expected: "token " + tok + " of the hidden error in %+v", Observed: short(verbose)})
+						break
+					}
+				}
+			}
+		}
 	}
 	verbose0 := obs.Fmt("%+v", e0)
 	for n, toks := range hiddenTokens {
